@@ -417,7 +417,114 @@ class Program:
         self.functions: Dict[str, FuncInfo] = {}
         self._subclasses: Dict[str, Set[str]] = {}
         self._load()
+        self._expand_wrapping_decorators()
         self._collapse_forwarders()
+
+    # ------------------------------------------------------ wrapping decorators
+    def _expand_wrapping_decorators(self):
+        """@deco def m(self, ...) where deco is a function of this package of the textbook form
+
+               def deco(f):
+                   @wraps(f)
+                   def wrapper(self, a, b): <before>; r = f(self, a, b); <after>; return r
+                   return wrapper
+
+        The name m then denotes `wrapper` with f bound to the undecorated m.  The model is rewritten to say so directly:
+        the undecorated function is kept as the private `_m__undecorated`, and m gets wrapper's signature and body with
+        every f(self, ...) turned into self._m__undecorated(...).  Any other decorator shape is left alone (the
+        decorated function is then read as written)."""
+        import copy
+
+        def wrapper_of(mod: ModuleInfo, d: ast.AST):
+            if not isinstance(d, ast.Name):
+                return None
+            r = self.resolve_name(mod, d.id)
+            if not r or r[0] != "func":
+                return None
+            D = self.functions.get(r[1])
+            if D is None or D.cls is not None or len(D.params) != 1 or D.params[0].kind != "pos":
+                return None
+            body = D.real_body()
+            if len(body) != 2 or not isinstance(body[0], ast.FunctionDef) or not isinstance(body[1], ast.Return) or \
+                    not isinstance(body[1].value, ast.Name) or body[1].value.id != body[0].name:
+                return None
+            W = body[0]
+            fname = D.params[0].name
+            for wd in W.decorator_list:
+                ok = isinstance(wd, ast.Call) and (dotted(wd.func) or "").split(".")[-1] == "wraps" and \
+                    len(wd.args) == 1 and isinstance(wd.args[0], ast.Name) and wd.args[0].id == fname
+                if not ok:
+                    return None
+            if W.args.vararg or W.args.kwarg:
+                return None
+            return D, W, fname
+
+        for mod in self.modules.values():
+            owners = [(None, mod.functions)] + [(ci, ci.methods) for ci in self.classes.values() if ci.module == mod.name]
+            for ci, table in owners:
+                for name, fi in list(table.items()):
+                    if isinstance(fi.node, ast.Lambda) or not fi.decorators or fi.dispatch_of is not None:
+                        continue
+                    hit = None
+                    for k, d in enumerate(fi.node.decorator_list):
+                        w = wrapper_of(mod, d)
+                        if w is not None:
+                            hit = (k, w)
+                            break
+                    if hit is None:
+                        continue
+                    k, (D, W, fname) = hit
+                    is_method = ci is not None and not fi.is_staticmethod
+                    wparams = [a.arg for a in list(W.args.posonlyargs) + list(W.args.args)]
+                    if is_method and not wparams:
+                        continue
+                    recv = wparams[0] if is_method else None
+                    hidden_name = "_" + name.lstrip("_") + "__undecorated"
+                    if hidden_name in table:
+                        continue
+                    # every use of f inside the wrapper must be a call f(recv, ...)
+                    uses_ok = True
+                    for n_ in ast.walk(W):
+                        if isinstance(n_, ast.Name) and n_.id == fname:
+                            uses_ok = uses_ok and isinstance(getattr(n_, "ctx", None), ast.Load)
+                    calls = [n_ for n_ in ast.walk(W) if isinstance(n_, ast.Call) and isinstance(n_.func, ast.Name)
+                             and n_.func.id == fname]
+                    n_names = sum(1 for n_ in ast.walk(W) if isinstance(n_, ast.Name) and n_.id == fname)
+                    n_deco = sum(1 for wd in W.decorator_list for n_ in ast.walk(wd) if isinstance(n_, ast.Name) and n_.id == fname)
+                    if not uses_ok or len(calls) != n_names - n_deco or not calls:
+                        continue
+                    if is_method and not all(c.args and isinstance(c.args[0], ast.Name) and c.args[0].id == recv
+                                             for c in calls):
+                        continue
+
+                    class Rw(ast.NodeTransformer):
+                        def visit_Call(self, n):
+                            self.generic_visit(n)
+                            if isinstance(n.func, ast.Name) and n.func.id == fname:
+                                if is_method:
+                                    f2 = ast.Attribute(value=ast.Name(id=recv, ctx=ast.Load()), attr=hidden_name, ctx=ast.Load())
+                                    n2 = ast.Call(func=f2, args=n.args[1:], keywords=n.keywords)
+                                else:
+                                    n2 = ast.Call(func=ast.Name(id=hidden_name, ctx=ast.Load()), args=n.args, keywords=n.keywords)
+                                return ast.copy_location(n2, n)
+                            return n
+                    hidden = copy.copy(fi.node)
+                    hidden.name = hidden_name
+                    hidden.decorator_list = list(fi.node.decorator_list[k + 1:])
+                    new = copy.deepcopy(W)
+                    new.name = name
+                    new.decorator_list = list(fi.node.decorator_list[:k])
+                    new = Rw().visit(new)
+                    ast.fix_missing_locations(new)
+                    new.lineno = fi.node.lineno
+                    h_fi = self._make_func(hidden, mod, ci)
+                    n_fi = self._make_func(new, mod, ci)
+                    n_fi.wrapped_by = D.qualname
+                    old_q = fi.qualname
+                    table[hidden_name] = h_fi
+                    self.functions[h_fi.qualname] = h_fi
+                    table[name] = n_fi
+                    self.functions[old_q] = n_fi
 
     # ------------------------------------------------------------- forwarders
     def _collapse_forwarders(self):
